@@ -91,13 +91,78 @@ class PathOracle:
 
     _zs = None
     zero_queries = 0
+    _env = None
+    _ncache = {}
+
+    @staticmethod
+    def numeval(e):
+        """value of e at one fixed rational point (inv(t) -> 1/t); None if undefined there. Used only to discard
+        candidate identities cheaply: two identical expressions have the same value, so no true identity is lost."""
+        from fractions import Fraction as Fr
+        import random
+        if PathOracle._env is None:
+            rnd = random.Random(20260928)
+            env = {}
+            base = 0
+            for j in range(5):
+                env["q%d" % j] = Fr(rnd.randint(-97, 97), rnd.randint(1, 13))
+                env["m%d" % j] = Fr(rnd.randint(-97, 97), rnd.randint(1, 13))
+                base += rnd.randint(3, 11)
+                env["n%d" % j] = Fr(base)
+            env["p"] = Fr(rnd.randint(1, 12), 13)
+            env["x"] = Fr(rnd.randint(-97, 97), rnd.randint(1, 13))
+            PathOracle._env = env
+        cache = PathOracle._ncache
+
+        def ev(t):
+            k = t.get_id()
+            hit = cache.get(k)
+            if hit is not None and hit[0].eq(t):
+                return hit[1]
+            if z3.is_rational_value(t):
+                r = Fr(t.numerator_as_long(), t.denominator_as_long())
+            elif z3.is_int_value(t):
+                r = Fr(t.as_long())
+            elif z3.is_const(t):
+                r = PathOracle._env[str(t)]
+            else:
+                kind = t.decl().kind()
+                ch = [ev(c) for c in t.children()]
+                if kind == z3.Z3_OP_ADD:
+                    r = sum(ch, Fr(0))
+                elif kind == z3.Z3_OP_SUB:
+                    r = ch[0]
+                    for c in ch[1:]:
+                        r -= c
+                elif kind == z3.Z3_OP_MUL:
+                    r = Fr(1)
+                    for c in ch:
+                        r *= c
+                elif kind == z3.Z3_OP_UMINUS:
+                    r = -ch[0]
+                elif kind == z3.Z3_OP_TO_REAL:
+                    r = ch[0]
+                elif kind == z3.Z3_OP_UNINTERPRETED and t.decl().name() == "inv":
+                    r = 1 / ch[0]
+                else:
+                    raise ValueError("numeval: operator " + str(t.decl()))
+            cache[k] = (t, r)
+            return r
+        try:
+            return ev(e)
+        except (ValueError, ZeroDivisionError, KeyError):
+            return None
 
     @staticmethod
     def zero(e):
-        """e == 0 as an identity (valid for all values of the variables and of the inv(.) atoms): z3 verdict"""
-        r = z3.simplify(e, som=True, som_blowup=100000)
+        """e == 0 as an identity (valid for all values of the variables and of the inv(.) atoms): z3 verdict.
+        A numeric evaluation at one point first discards expressions that are visibly non-zero."""
+        r = z3.simplify(e)
         if z3.is_rational_value(r):
             return r.numerator_as_long() == 0
+        nv = PathOracle.numeval(e)
+        if nv is not None and nv != 0:
+            return False
         if PathOracle._zs is None:
             PathOracle._zs = z3.Solver()
             PathOracle._zs.set("timeout", 5000)
@@ -246,7 +311,7 @@ def p2_reference(q, n, m, p, x, orc, div):
 def check_p2_step(W, prop):
     from . import interp as I
     q = [z3.Real("q%d" % j) for j in range(5)]
-    n = [z3.Real("n%d" % j) for j in range(5)]
+    n = [z3.Int("n%d" % j) for j in range(5)]
     m = [z3.Real("m%d" % j) for j in range(5)]
     p, x = z3.Reals("p x")
     pre = wf(q, n, m, p)
@@ -281,11 +346,10 @@ def check_p2_step(W, prop):
                 eqs = [feq(aq[j], rq[j]) for j in range(5)] + [feq(am[j], rm[j]) for j in range(5)] + [to_real(an[j]) == rn[j] for j in range(5)]
                 hard_conf.append(z3.Implies(conj(o.pc[len(pre):]), to_bool(b_and(*eqs))))
             # invariants on this path
-            pcs = conj(o.pc[len(pre):])
-            ordered = [R(aq[j]) <= R(aq[j + 1]) for j in range(4)]
+            pcs_lin = [to_bool(c) for c in o.pc[len(pre):] if c is not True and W.m.is_linear(to_bool(c))]
             pos = [to_real(an[0]) == 1, to_real(an[4]) == n[4] + 1] + [to_real(an[j + 1]) >= to_real(an[j]) + 1 for j in range(4)]
             ext = [R(aq[0]) == lo, R(aq[4]) == hi]
-            hard_inv.append((pcs, ordered, pos + ext))
+            hard_inv.append((pcs_lin, pos + ext))
         if not n_paths:
             raise Unsupported("Quantile::add has no returning path")
         axioms = list(I.DIV["axioms"].values())
@@ -307,13 +371,17 @@ def check_p2_step(W, prop):
         for g in range(0, len(hard_conf), G):
             W.prove("Quantile.add-step conforms to P-square [solver, paths %d-%d of %d]" % (g + 1, min(g + G, len(hard_conf)), len(hard_conf)),
                     pre + axioms, z3.And(*hard_conf[g:g + G]), role="%s:Quantile.p2-conformance" % prop, note=note_c, replay=rp_desc)
-        # invariants: positions and extremes are linear facts; height order needs the field axioms
-        lin_goals = [z3.Implies(pcs, z3.And(*le)) for (pcs, _, le) in hard_inv]
-        G2 = 64
+        # positions and extreme markers are decided by linear branch conditions only: keep the linear part of each path
+        # condition as antecedent (dropping conjuncts only strengthens the obligation) and stay in linear arithmetic
+        lin_goals = []
+        for (pcs_list, le) in hard_inv:
+            lin_goals.append(z3.Implies(z3.And(*pcs_list) if pcs_list else z3.BoolVal(True), z3.And(*le)))
+        G2 = 256
         for g in range(0, len(lin_goals), G2):
             W.prove("Quantile.add-step positions and extremes [paths %d-%d of %d]" % (g + 1, min(g + G2, len(lin_goals)), len(lin_goals)),
-                    pre + axioms, z3.And(*lin_goals[g:g + G2]), role="%s:Quantile.positions-and-extremes" % prop, replay=rp_desc,
-                    note="after add: first/last marker = min/max of (old extreme, x), first position 1, last position = count, positions strictly increasing")
+                    pre, z3.And(*lin_goals[g:g + G2]), role="%s:Quantile.positions-and-extremes" % prop, replay=rp_desc,
+                    note="after add, on every execution path: first/last marker = min/max of (old extreme, x), first position 1, last position = "
+                         "count, positions strictly increasing (positions are reals standing for integers with gaps in {1} U [2, inf))")
     finally:
         I.DIV["mode"] = "div"
 
@@ -371,7 +439,7 @@ def quantile_replay(q, n, m, p, x):
         eq, en, em = py_p2(qs, ns, ms, pv, xv)
         exp = {"quantile": eq[2], "len": en[4], "_parts": [float(v) for v in eq] + en + [float(v) for v in em]}
         return program, [exp], {"scale": max([abs(float(v)) for v in qs] + [1.0]), "state": words}
-    return {"vars": list(q) + list(n) + list(m) + [p, x], "build": build, "counts": list(n)}
+    return {"vars": list(q) + list(n) + list(m) + [p, x], "build": build, "counts": list(n), "count_max": 16}
 
 
 def check_p2_init(W, prop):
@@ -407,7 +475,7 @@ def check_p2_init(W, prop):
 
 def check_quantile_reads_middle(W, prop):
     q = [z3.Real("q%d" % j) for j in range(5)]
-    n = [z3.Real("n%d" % j) for j in range(5)]
+    n = [z3.Int("n%d" % j) for j in range(5)]
     m = [z3.Real("m%d" % j) for j in range(5)]
     p = z3.Real("p")
     pre = wf(q, n, m, p)
@@ -424,3 +492,30 @@ def check_quantile_reads_middle(W, prop):
             gs.append(z3.Implies(conj(o.pc[len(pre):]), spec(o.value) if o.kind == "return" else z3.BoolVal(False)))
         W.prove("Quantile.%s (count >= 5)" % meth, pre, z3.And(*gs), role="%s:Quantile.%s" % (prop, meth),
                 note="len() is the last position, is_empty() false, p() the constructor argument")
+
+
+class NoOracle:
+    """leaves every branch condition of the reference as an If-term"""
+    undecided = []
+
+    def lt(self, a, b):
+        return None
+
+
+def check_reference_invariants(W, prop):
+    """Properties of the P-square update itself (the reference the implementation is shown to conform to), for every
+    well-formed state: heights stay ordered and quantile() = middle marker lies within [min, max]."""
+    q = [z3.Real("q%d" % j) for j in range(5)]
+    n = [z3.Real("n%d" % j) for j in range(5)]      # reals standing for integers: gaps are 1 or at least 2
+    m = [z3.Real("m%d" % j) for j in range(5)]
+    p, x = z3.Reals("p x")
+    pre = wf(q, n, m, p) + [z3.Or(n[j + 1] - n[j] == 1, n[j + 1] - n[j] >= 2) for j in range(4)]
+    W.query_timeout_ms = max(W.query_timeout_ms, 240000)
+    rq, rn, rm = p2_reference(q, n, m, p, x, NoOracle(), lambda a, b: a / b)
+    for j in range(4):
+        W.prove("P-square reference: height %d <= height %d after the update" % (j + 1, j + 2), pre, rq[j] <= rq[j + 1],
+                role="%s:Quantile.heights-non-decreasing" % prop,
+                note="property of the P-square update that the implementation conforms to (C05 conformance): marker heights stay "
+                     "non-decreasing for every well-formed state, every p and every real observation")
+    W.prove("P-square reference: middle marker within [min, max]", pre, z3.And(rq[0] <= rq[2], rq[2] <= rq[4]),
+            role="%s:Quantile.quantile-within-range" % prop, note="quantile() (the middle marker) lies between the extreme markers")
